@@ -1,4 +1,5 @@
-"""C18 fragments: Monitor / VecMonitor accumulators and guards, evaluate_policy quota and bookkeeping.
+"""C18 fragments (start/end patterns anchor on stable text only, never on the captured operator):
+ Monitor / VecMonitor accumulators and guards, evaluate_policy quota and bookkeeping.
 Rewards are typed Z (units of 1/4, as in Model/Script.v): only the additive structure matters."""
 _MON = "stable_baselines3/common/monitor.py"
 _VM = "stable_baselines3/common/vec_env/vec_monitor.py"
@@ -11,22 +12,22 @@ SPECS = [
          subst={"self.allow_early_resets": "allow_early_resets", "self.needs_reset": "needs_reset"}),
     dict(name="mon_reset_state", file=_MON, qual="Monitor.reset", start=r"^self.needs_reset = ", end=None,
          inputs=[], subst={"self.needs_reset": "needs_reset"}, outputs=[("needs_reset", "bool")]),
-    dict(name="mon_step_refused", file=_MON, qual="Monitor.step", start=r"^if self.needs_reset", end=None, kind="test",
+    dict(name="mon_step_refused", file=_MON, qual="Monitor.step", start=r"^if .*self\.needs_reset", end=None, kind="test",
          inputs=[("needs_reset", "bool")], subst={"self.needs_reset": "needs_reset"}),
-    dict(name="mon_ends", file=_MON, qual="Monitor.step", start=r"^if terminated\b", end=None, kind="test",
+    dict(name="mon_ends", file=_MON, qual="Monitor.step", start=r"^if .*(terminated|truncated)\b", end=None, kind="test",
          inputs=[("terminated", "bool"), ("truncated", "bool")]),
     dict(name="mon_end_state", file=_MON, qual="Monitor.step", start=r"^self.needs_reset = ", end=r"^ep_len = ",
          inputs=[("sum_rewards", "Z"), ("n_rewards", "Z")],
          subst={"self.needs_reset": "needs_reset", "sum(self.rewards)": "sum_rewards", "len(self.rewards)": "n_rewards"},
          outputs=[("needs_reset", "bool"), ("ep_rew", "Z"), ("ep_len", "Z")]),
-    dict(name="mon_total_steps", file=_MON, qual="Monitor.step", start=r"^self.total_steps \+= ", end=None,
+    dict(name="mon_total_steps", file=_MON, qual="Monitor.step", start=r"^self\.total_steps\b", end=None,
          inputs=[("total_steps", "Z")], subst={"self.total_steps": "total_steps"}, outputs=[("total_steps", "Z")]),
     # ---- VecMonitor ----
-    dict(name="vm_acc", file=_VM, qual="VecMonitor.step_wait", start=r"^self.episode_returns \+= ", end=r"^self.episode_lengths \+= ",
+    dict(name="vm_acc", file=_VM, qual="VecMonitor.step_wait", start=r"^self\.episode_returns [-+*/]?= ", end=r"^self\.episode_lengths [-+*/]?= ",
          inputs=[("ret", "Z"), ("len", "Z"), ("reward", "Z")],
          subst={"self.episode_returns": "ret", "self.episode_lengths": "len", "rewards": "reward"},
          outputs=[("ret", "Z"), ("len", "Z")]),
-    dict(name="vm_done", file=_VM, qual="VecMonitor.step_wait", start=r"^if dones\[i\]", end=None, kind="test",
+    dict(name="vm_done", file=_VM, qual="VecMonitor.step_wait", start=r"^if .*dones\[i\]", end=None, kind="test",
          inputs=[("done", "bool")], subst={"dones[i]": "done"}),
     dict(name="vm_report", file=_VM, qual="VecMonitor.step_wait", start=r"^episode_return = ", end=r"^episode_length = ",
          inputs=[("ret", "Z"), ("len", "Z")], subst={"self.episode_returns[i]": "ret", "self.episode_lengths[i]": "len"},
@@ -37,13 +38,13 @@ SPECS = [
     # ---- evaluate_policy ----
     dict(name="ev_quota", file=_EV, qual="evaluate_policy", start=r"^episode_count_targets = ", end=None, kind="expr", ret="Z",
          pick="listcomp_elt", inputs=[("n_eval_episodes", "Z"), ("i", "Z"), ("n_envs", "Z")]),
-    dict(name="ev_under_quota", file=_EV, qual="evaluate_policy", start=r"^if episode_counts\[i\] ", end=None, kind="test",
+    dict(name="ev_under_quota", file=_EV, qual="evaluate_policy", start=r"^if episode_count", end=None, kind="test",
          inputs=[("count", "Z"), ("target", "Z")], subst={"episode_counts[i]": "count", "episode_count_targets[i]": "target"}),
-    dict(name="ev_acc", file=_EV, qual="evaluate_policy", start=r"^current_rewards \+= ", end=r"^current_lengths \+= ",
+    dict(name="ev_acc", file=_EV, qual="evaluate_policy", start=r"^current_rewards [-+*/]?= ", end=r"^current_lengths [-+*/]?= ",
          inputs=[("cur_r", "Z"), ("cur_l", "Z"), ("reward", "Z")],
          subst={"current_rewards": "cur_r", "current_lengths": "cur_l", "rewards": "reward"},
          outputs=[("cur_r", "Z"), ("cur_l", "Z")]),
-    dict(name="ev_done", file=_EV, qual="evaluate_policy", start=r"^if dones\[i\]", end=None, kind="test",
+    dict(name="ev_done", file=_EV, qual="evaluate_policy", start=r"^if .*dones\[i\]", end=None, kind="test",
          inputs=[("done", "bool")], subst={"dones[i]": "done"}),
     dict(name="ev_restart", file=_EV, qual="evaluate_policy", start=r"^current_rewards\[i\] = ", end=r"^current_lengths\[i\] = ",
          inputs=[], subst={"current_rewards[i]": "cur_r", "current_lengths[i]": "cur_l"},
